@@ -489,6 +489,7 @@ func c06monitor(cw *caseWriter) func(tag string, in, obs []uint64) {
 			if e.kind == 1 && resp != nil && resp[1] == 1 {
 				if c, ok := granted[e.term]; ok && c != e.ad {
 					cw.monitor("C06", tag, "two-candidates-granted-in-one-term", "term %d: a%d and a%d", e.term, c, e.ad)
+					cw.monitor("C01", tag, "one-server-granted-two-candidates-in-one-term", "term %d: a%d and a%d (each vote counts towards a different majority)", e.term, c, e.ad)
 				}
 				granted[e.term] = e.ad
 				if next != nil && (next[sVTerm] != e.term || next[sVCand] != e.ad+1) {
@@ -578,6 +579,7 @@ func runC06(cw *caseWriter, tier string, seed uint64) {
 	c06gen(cw, tier, r)
 	runC14cand(cw, tier, &rng{s: seed*47 + 13}) // candidate loop: terms learned from answers are persisted before they are acted on
 	c06readFaults(cw, &rng{s: seed + 3})
+	c01nodeseq(cw, tier, &rng{s: seed*61 + 17}) // random sequences with TimeoutNow + the directed re-vote sequences
 }
 
 // component 606 (monitored only): transient READ errors of the stable store inside requestVote.
